@@ -18,7 +18,7 @@ from vmon.ref import supercells as R
 ID = 'C29'
 RULE = ('case = one random calculator (vacancy-mediated: named 3-D crystals sc/fcc/bcc/diamond/hcp/omega/rumpled/b2/l12/tet '
         'or a random 3-D crystal, random species, 1-2 neighbour shells, Nthermo 1-2; interstitial: the same hosts plus 1-2 '
-        'Wyckoff orbits of interstitial sites added with addbasis) x 4 supercell matrices (n*I, diagonal, general '
+        'Wyckoff orbits of interstitial sites added with addbasis, the interstitial species at a random chemistry index in half of the cases) x 4 supercell matrices (n*I, diagonal, general '
         'non-diagonal incl. symmetry-breaking ones, a diagonal one fitted to contain every kinetic state, and in every fifth case a '
         'skewed one searched so that all states are inside the half cell although one has a closer periodic image); '
         'non-trivial = the dictionary has at least one transition; distinct = (calculator kind, crystal, species, '
